@@ -82,6 +82,9 @@ class ShapelyPolygon(Domain):
             if len(points) == n:
                 break
         points = self._check_enough_points_sampled(n, points, big_t, device)
+        # the points were created triangle by triangle, return them in random order
+        # (the rows get paired with parameter rows, e.g. in domain operations)
+        points = points[torch.randperm(len(points), device=device)]
         return Points(points, self.space)
 
     def _sample_in_triangulation(self, t, n, device):
